@@ -421,8 +421,13 @@ def _step_cases(draw):
                 "as": draw(st.sampled_from(["list", "intarray", "floatarray", "floatlist"]))}
     else:
         min_n = draw(st.sampled_from([1, 2, 3, 3, 5, 8, 12]))
-        spec = draw(gen.record_specs(min_n=min_n, max_n=150, small_max=30, amp_lo=-3, amp_hi=3,
-                                     kinds=["vals", "dyadic", "noise", "step", "walk", "levels", "pulse", "const"]))
+        if draw(st.integers(0, 19)) == 7:
+            # longer series (the library's work grows with n^2)
+            spec = draw(gen.record_specs(min_n=151, max_n=1400, small_max=151, amp_lo=-3, amp_hi=3,
+                                         kinds=["noise", "step", "walk", "levels", "pulse"]))
+        else:
+            spec = draw(gen.record_specs(min_n=min_n, max_n=150, small_max=30, amp_lo=-3, amp_hi=3,
+                                         kinds=["vals", "dyadic", "noise", "step", "walk", "levels", "pulse", "const"]))
         vals = {"src": "rec", "rec": spec, "flip": draw(st.booleans()),
                 "shift": draw(st.sampled_from([0.0, 0.0, 0.5, -0.5, 2.0, -2.0, 100.0, -100.0])),
                 "as": draw(st.sampled_from(["floatarray", "floatlist"]))}
@@ -606,6 +611,75 @@ def step_fit(case, ctx):
         ctx.equal(arg, before, "input mutated")
     else:
         ctx.check(arg == before, "input list mutated")
+
+
+# long series: the library builds n x n work arrays, so lengths of several thousand samples are a different regime
+
+
+def _ref_step_error_blocked(v, p, rows=128):
+    """Same definition as _ref_step_error, evaluated in long double in blocks of `rows` splits (vectorised over samples)."""
+    n = len(v)
+    vl = v.astype(LD)
+    csum = np.cumsum(vl)
+    tot = csum[-1]
+    j = np.arange(n)
+    err = np.zeros(n, dtype=LD)
+    for i0 in range(0, n, rows):
+        i = np.arange(i0, min(n, i0 + rows))
+        m_pre = csum[i] / (i + 1).astype(LD)
+        n_post = (n - 1 - i)
+        m_post = np.where(n_post > 0, (tot - csum[i]) / np.maximum(n_post, 1).astype(LD), LD(0))
+        pre = j[None, :] <= i[:, None]
+        dev = np.abs(vl[None, :] - np.where(pre, m_pre[:, None], m_post[:, None]))
+        err[i] = np.sum(dev if p == 1 else dev * dev, axis=1)
+    return err
+
+
+def _validate_blocked_reference():
+    v = np.sin(np.arange(41.0) * 1.3) + np.where(np.arange(41) > 17, 2.0, -1.0)
+    for p in (1, 2):
+        a, b = _ref_step_error(v, p), _ref_step_error_blocked(v, p, rows=7)
+        if not np.all(np.abs(a - b) <= 1e-15 * np.max(np.abs(a))):
+            raise HarnessError("C20: blocked step-error reference disagrees with the loop reference")
+
+
+_validate_blocked_reference()
+
+
+def _long_step_cases(tier, shard, nshards):
+    items = [(2 ** 13 + 2, 1, 3000)]
+    if tier != "quick":
+        items += [(2 ** 13 + 2, 2, 5000), (2 ** 13 - 1, 1, 100), (9001, 1, 8500), (10007, 2, 4000), (2 ** 12 + 1, 1, 4000)]
+    for k, (n, p, at) in enumerate(items):
+        if k % nshards == shard:
+            yield {"n": n, "pow": p, "at": at, "seed": 5 + k}
+
+
+@enum_clause(CLAUSES, "step-fit-long", _long_step_cases,
+             rule="fixed long series (4097..10007 samples: a level change of 3.5 at a chosen sample + noise 0.3), pow 1 and 2",
+             oracle="reference model: the definition evaluated in long double in blocks of splits (validated at import against the loop "
+                    "reference), tolerance 1e-10*n*max|v|^p; levels = means before / after the split of minimal pow-1 error",
+             exhaustive_note="the listed (length, power, step position) triples", quick_shards=1)
+def step_fit_long(case, ctx):
+    n, p, at = int(case["n"]), int(case["pow"]), int(case["at"])
+    v = np.where(np.arange(n) <= at, 2.0, -1.5) + 0.3 * np.random.RandomState(case["seed"]).standard_normal(n)
+    ctx.nt(True)
+    ctx.cls("p=%d" % p)
+    vmax = float(np.max(np.abs(v)))
+    before = v.copy()
+    got = ctx.lib(eqsig.fns.calc_step_fn_vals_error, v, pow=p)
+    ref = _ref_step_error_blocked(v, p)
+    _check_step_error(ctx, got, ref, 1e-10 * n * vmax ** p, False, "calc_step_fn_vals_error(pow=%d, n=%d)" % (p, n))
+    ref1 = ref if p == 1 else _ref_step_error_blocked(v, 1)
+    tol1 = 1e-10 * n * vmax
+    idx = [int(i) for i in np.nonzero(np.asarray(ref1 - tol1, dtype=float) <= float(np.min(ref1) + tol1))[0]]
+    if all(1 <= i <= n - 2 for i in idx):
+        pre, post = ctx.lib(eqsig.fns.calc_step_fn_steps_vals, v)
+        tol_m = (n + 4) * EPS * vmax
+        vl = v.astype(LD)
+        ctx.check(any(abs(pre - float(np.mean(vl[:i]))) <= tol_m and abs(post - float(np.mean(vl[i + 1:]))) <= tol_m for i in idx),
+                  "calc_step_fn_steps_vals(values) = %r, but the error is minimal at split(s) %r (n=%d)" % ((pre, post), idx, n))
+    ctx.equal(v, before, "input mutated")
 
 
 # ---------------------------------------------------------------------------
